@@ -107,7 +107,7 @@ def Stmt.okBody2 (all : List String) (te : C.TyEnv) : Stmt → Option C.TyEnv
     returns the declarations after the chain (the promoted ones appended) -/
 def Stmt.okChain2 (all : List String) (te : C.TyEnv) : Stmt → Option C.TyEnv
   | .ifs c t e =>
-    if !(c.wt te) then none
+    if !(c.okCond te) then none
     else do
       let teT ← t.okBody2 all te
       let promT := newDecls te teT
@@ -126,9 +126,9 @@ def Stmt.okTop2 (all : List String) (te : C.TyEnv) : Stmt → Option C.TyEnv
   | .seq a b => do let te1 ← a.okTop2 all te; b.okTop2 all te1
   | .assign x e => (Stmt.assign x e).okTop all te
   | .ifs c t e => (Stmt.ifs c t e).okChain2 all te
-  | .whileLoop c b => if c.wt te then b.okBody2 all te else none
+  | .whileLoop c b => if c.okCond te then b.okBody2 all te else none
   | .forRange i n b =>
-    if n.wt te && !(all.contains i) && (te.lookup i).isNone && n.vars.all (fun v => !(b.assigned.contains v)) then
+    if n.okCond te && !(all.contains i) && (te.lookup i).isNone && n.vars.all (fun v => !(b.assigned.contains v)) then
       (b.okBody2 all ((i, .int) :: te)).map fun te' => te'.filter (·.1 ≠ i)
     else none
   | s => if s.okNested all te then some te else none
